@@ -93,6 +93,10 @@ func (m *SubackMessage) Decode(src []byte) (int, error) {
 		return total, err
 	}
 
+	if m.remlen < 2 {
+		return total, fmt.Errorf("suback/Decode: Insufficient remaining length %d. Expecting at least 2", m.remlen)
+	}
+
 	//this.packetId = binary.BigEndian.Uint16(src[total:])
 	m.packetID = src[total : total+2]
 	total += 2
